@@ -34,10 +34,12 @@ Count(c, rule) == IF \E i \in 1..Len(c) : c[i][1] = rule
                   ELSE Append(c, <<rule, 1>>)
 
 ProbeVal(f) == "76" \o TextHex(f.opq)
+(* slow-reader universes log long values as a digest plus their length *)
+VLen(r) == IF "vl" \in DOMAIN r THEN r.vl ELSE Len(r.v) \div 2
 RespOK(r) ==
     /\ r.short = 0 /\ r.magic = 129 /\ r.dt = 0 /\ r.st \in StatusTable /\ r.bl = r.al
     /\ Len(r.x) = 2 * r.el /\ Len(r.key) = 2 * r.kl
-    /\ r.bl = r.el + r.kl + (Len(r.v) \div 2)
+    /\ r.bl = r.el + r.kl + VLen(r)
 Answers(r, f) == r.opq = f.opq /\ r.op = f.op
 
 Res(tags, rule) == [tags |-> tags, rule |-> rule, lim |-> 1000000]
@@ -49,6 +51,8 @@ StartOf(fr, i) == IF i = 1 THEN 0 ELSE StartOf(fr, i - 1) + HeaderLen + fr[i - 1
 
 (* walk frame fi against response ri; `how` says how the reading ended; the client sent only *)
 (* the first `cut` bytes (the whole stream plus a sentinel noop when cut = total length)      *)
+(* what goes wrong after an oversized frame also breaks C13 ("the following pipelined requests are served normally") *)
+OverBefore(fr, fi) == IF \E j \in 1..(fi - 1) : j <= Len(fr) /\ Class(fr[j], sm.limit) = "oversize" THEN {"C13"} ELSE {}
 RECURSIVE Walk(_, _, _, _, _, _)
 Walk(fr, rs, fi, ri, how, cut) ==
     LET total == StartOf(fr, Len(fr) + 1)
@@ -58,7 +62,7 @@ Walk(fr, rs, fi, ri, how, cut) ==
         IF cut < total THEN (IF closedNow THEN ResAt("cut.closed", fi - 1) ELSE Res({"C18", "C12"}, "cut.extra.response"))
         \* all frames served: the sentinel noop must be answered, and nothing else
         ELSE IF ri = Len(rs) /\ how = "done" /\ rs[ri].opq = Sentinel /\ rs[ri].st = 0 THEN Res({}, "served")
-        ELSE IF ri <= Len(rs) /\ rs[ri].opq # Sentinel THEN Res({"C12", "C09"}, "extra.response")
+        ELSE IF ri <= Len(rs) /\ rs[ri].opq # Sentinel THEN Res({"C12", "C09"} \cup OverBefore(fr, fi), "extra.response")
         ELSE Res({"C12", "C09", "C13"}, "sentinel.unanswered")
     ELSE
     LET f == fr[fi]
@@ -81,14 +85,14 @@ Walk(fr, rs, fi, ri, how, cut) ==
         IF f.op = 7 THEN (IF have /\ rs[ri].st = 0 /\ ri = Len(rs) /\ how \in {"eof", "reset"} THEN ResAt("quit", fi) ELSE Res({"C12"}, "quit.bad"))
         ELSE (IF closedHere THEN ResAt("quitq", fi) ELSE Res({"C12"}, "quitq.bad"))
     ELSE IF cls = "canonical" THEN
-        IF ~IsQuiet(f.op) THEN (IF have THEN Walk(fr, rs, fi + 1, ri + 1, how, cut) ELSE Res({"C12", "C09", "C18"}, "loud.unanswered"))
+        IF ~IsQuiet(f.op) THEN (IF have THEN Walk(fr, rs, fi + 1, ri + 1, how, cut) ELSE Res({"C12", "C09", "C18"} \cup OverBefore(fr, fi), "loud.unanswered"))
         ELSE IF have THEN
             (IF rs[ri].st # 0 \/ oc = "get" THEN Walk(fr, rs, fi + 1, ri + 1, how, cut) ELSE Res({"C12", "C19"}, "quiet.success.answered"))
         ELSE Walk(fr, rs, fi + 1, ri, how, cut)
     ELSE IF cls = "unimpl" THEN
         IF have THEN Walk(fr, rs, fi + 1, ri + 1, how, cut)
         ELSE IF IsQuiet(f.op) THEN Walk(fr, rs, fi + 1, ri, how, cut)
-        ELSE Res({"C12"}, "unimpl.unanswered")
+        ELSE Res({"C12"} \cup OverBefore(fr, fi), "unimpl.unanswered")
     ELSE \* odd or invalid
         IF closedHere THEN ResAt("closed." \o cls, fi - 1)
         ELSE IF have /\ rs[ri].st # 0 THEN Walk(fr, rs, fi + 1, ri + 1, how, cut)
@@ -97,7 +101,8 @@ Walk(fr, rs, fi, ri, how, cut) ==
 
 Judge(e) ==
     IF "panics" \in DOMAIN e /\ e.panics > 0 THEN Res({"C10"}, "server.task.panicked")
-    ELSE IF \E i \in 1..Len(e.r) : ~RespOK(e.r[i]) THEN Res({"C11"}, "malformed.response")
+    \* (under back-pressure - the client reads late - a response cut short is also a request without its one response)
+    ELSE IF \E i \in 1..Len(e.r) : ~RespOK(e.r[i]) THEN Res({"C11"} \cup (IF "slow" \in DOMAIN e THEN {"C12"} ELSE {}), "malformed.response")
     ELSE IF e.how = "timeout" THEN Res({"C12", "C09", "C10"}, "no.answer.in.time")
     ELSE IF e.maxcap > sm.limit + Slack THEN Res({"C10"}, "buffer.bloat")
     ELSE LET w == Walk(sm.frames, e.r, 1, 1, e.how, sm.cut) IN
@@ -136,7 +141,7 @@ Step ==
                 /\ viol' = Append(viol, [line |-> l, stream |-> sm.id, u |-> e.u, tags |-> {"DRIFT"}, rule |-> "model.mismatch"])
                 /\ sm' = [sm EXCEPT !.dead = TRUE] /\ UNCHANGED cov
             ELSE IF sm.first # <<>> /\ sm.first[1] # Summary(e) THEN
-                /\ viol' = Append(viol, [line |-> l, stream |-> sm.id, u |-> e.u, tags |-> {"C09"} \cup
+                /\ viol' = Append(viol, [line |-> l, stream |-> sm.id, u |-> e.u, tags |-> {"C09"} \cup (IF "slow" \in DOMAIN e THEN {"C11", "C12"} ELSE {}) \cup
                                              (IF \E i \in 1..Len(sm.frames) : Class(sm.frames[i], sm.limit) = "oversize" THEN {"C13"} ELSE {}),
                                          rule |-> "segmentation.dependent"])
                 /\ sm' = [sm EXCEPT !.dead = TRUE] /\ UNCHANGED cov
